@@ -1,6 +1,6 @@
 CONSTANTS
   NL = 2
-  NN = 2
+  NN = 1
   MaxSubs = 3
   MaxSteps = 5
   GenDepth = 99
